@@ -84,6 +84,9 @@ package lock
 //@   ensures[C16] unlocked_failure_silent: (!panics && (emits Store.Save(?s) -> ?e :: e == nil && (each Now() -> ?t => Locked(s) <= t))) ==>
 //@       (result.0 == false && result.1 == nil && !emits Redirect(_) && !emits Respond(_, _, _) && !emits Sess.Put(_, _) && !emits Sess.Del(_) &&
 //@        !emits Cook.Put(_, _) && !emits Cook.Del(_) && !emits HeaderSet(_, _, _) && !emits WriteHeader(_, _) && !emits Write(_, _) && !emits HTTPRedirect(_, _, _))
+//@   -- C04: every failure is recorded, also against an account that is already locked (it
+//@   -- re-triggers the lock)
+//@   ensures[C04] failure_always_recorded: (!panics && result.1 == nil) ==> emits Store.Save(_) -> ?e :: e == nil
 //@   ensures[C04] failure_counts: each Store.Save(?s) -> _ =>
 //@       (emits Now() -> ?nw :: AttemptCount(s) == step_count(old(AttemptCount(s)), old(LastAttempt(s)), nw, l.Modules.LockWindow))
 //@
